@@ -200,6 +200,9 @@ def r4(cx):
                 continue
             n += 1
             if fate.startswith("dropped"):
+                if not f.call_can_fail(c):
+                    cx.ok("`%s` cannot return Err today (every return is Ok(..)): discarding its Result in `%s` loses nothing" % (c.primary, b.id), c.where())
+                    continue
                 if c.primary in PROBES and "TableWriter" in b.id:
                     cx.ok("accepted idiom (%s): `%s` in `%s`" % (PROBES[c.primary], c.primary, b.id), c.where())
                     continue
